@@ -81,6 +81,11 @@ func (dc *dataChunk) AppendRecordGC(wrec *WriteRecord) (offset uint32, err error
 }
 
 func (dc *dataChunk) getDiskFileSize() uint32 {
+	// wbuf and size change together under the chunk lock (AppendRecord); reading
+	// them unlocked could pair an empty buffer with an already advanced size and
+	// make flush stop the process with "wrong data file size"
+	dc.Lock()
+	defer dc.Unlock()
 	if len(dc.wbuf) > 0 {
 		return dc.wbuf[0].pos.Offset
 	}
